@@ -399,10 +399,13 @@ class Spectrum:
             An array of sampled values.
 
         """
+        # convert a copy so that sampling never changes the units of self
+        spectrum = self
         if waveunit != self.waveunit:
-            self.to(waveunit)
+            spectrum = self.copy()
+            spectrum.to(waveunit)
 
-        interp = scipy.interpolate.interp1d(self.wave, self.value, kind=method,
+        interp = scipy.interpolate.interp1d(spectrum.wave, spectrum.value, kind=method,
                                             copy=False, bounds_error=False,
                                             fill_value=fill_value)
 
